@@ -1,1 +1,130 @@
 //! Differential-driver access to crate-private items (group: ben). See /verif/DESIGN.md.
+//!
+//! Thin wrappers only: every function below calls the production item it names and converts its
+//! result into plain data. No production logic is repeated here.
+#![allow(missing_docs, missing_debug_implementations, unreachable_pub)]
+
+use crate::{
+    TxVersion,
+    account::FinalizedAccount,
+    beneficiary::{
+        Beneficiary, BeneficiaryMode, BeneficiaryReadVersion, DeferredBeneficiaryReward,
+        SpeculativeResult,
+    },
+};
+use core::cell::Cell;
+use revm::{
+    handler::{EvmTr, EvmTrError, FrameResult},
+    interpreter::Gas,
+};
+use revm_context::{
+    ContextTr, JournalTr,
+    result::{ExecutionResult, Output, ResultAndState, ResultGas, SuccessReason},
+};
+use revm_primitives::{Address, Bytes, U256};
+use revm_state::{Account, AccountInfo, EvmState};
+
+/// The real `Beneficiary` aggregate (address + `BeneficiaryHistory`).
+pub struct BenV {
+    inner: Beneficiary,
+}
+
+/// `(txid, incarnation)` chain, newest first.
+pub type Origins = Vec<(usize, usize)>;
+
+impl BenV {
+    pub fn new(address: Address, block_anchor: Option<AccountInfo>, block_size: usize) -> Self {
+        Self { inner: Beneficiary::new(address, block_anchor, block_size) }
+    }
+
+    pub fn matches(&self, address: Address) -> bool {
+        self.inner.matches(address)
+    }
+
+    /// `Beneficiary::resolve_before` followed by `BeneficiaryRead::into_parts`.
+    pub fn resolve_before(&self, txid: usize) -> Result<(Option<AccountInfo>, Origins), usize> {
+        self.inner.resolve_before(txid).map(|read| {
+            let (account, version) = read.into_parts();
+            (account, version.verif_origins())
+        })
+    }
+
+    /// `Beneficiary::record_execution` on a `SpeculativeResult` built from the finalized `state`
+    /// (`settled` when `deferred` is `None`, else `deferred`).
+    pub fn record_execution(
+        &self,
+        txid: usize,
+        incarnation: usize,
+        state: EvmState,
+        deferred: Option<U256>,
+    ) -> bool {
+        let result_and_state = ResultAndState {
+            result: ExecutionResult::Success {
+                reason: SuccessReason::Stop,
+                gas: ResultGas::default(),
+                logs: Vec::new(),
+                output: Output::Call(Bytes::new()),
+            },
+            state,
+        };
+        let result = match deferred {
+            None => SpeculativeResult::settled(result_and_state),
+            Some(amount) => SpeculativeResult::deferred(
+                result_and_state,
+                DeferredBeneficiaryReward::verif_new(amount),
+            ),
+        };
+        self.inner.record_execution(&TxVersion::new(txid, incarnation), &result)
+    }
+
+    pub fn record_estimate(&self, txid: usize, incarnation: usize) -> bool {
+        self.inner.record_estimate(&TxVersion::new(txid, incarnation))
+    }
+
+    pub fn invalidate(&self, txid: usize, incarnation: usize) -> bool {
+        self.inner.invalidate(&TxVersion::new(txid, incarnation))
+    }
+
+    /// `Beneficiary::validate`: `(is_valid, dependency)`.
+    pub fn validate(&self, txid: usize, expected: &[(usize, usize)]) -> (bool, Option<usize>) {
+        let expected = BeneficiaryReadVersion::verif_from_origins(expected);
+        let validation = self.inner.validate(txid, &expected);
+        (validation.is_valid(), validation.dependency())
+    }
+}
+
+/// `BeneficiaryReward::from_gas` (`None` = fee charge disabled).
+pub fn from_gas<CTX: ContextTr>(context: &CTX, gas: &Gas) -> Option<U256> {
+    crate::beneficiary::verif_from_gas(context, gas)
+}
+
+/// `DeferredBeneficiaryReward::apply_to`.
+pub fn apply_to(amount: U256, account: Option<AccountInfo>) -> AccountInfo {
+    DeferredBeneficiaryReward::verif_new(amount).apply_to(account)
+}
+
+/// `BeneficiaryMode::apply`; returns the deferred amount left in the cell.
+pub fn mode_apply<EVM, ERROR>(
+    deferred_mode: bool,
+    evm: &mut EVM,
+    exec_result: &mut FrameResult,
+) -> Result<Option<U256>, ERROR>
+where
+    EVM: EvmTr<Context: ContextTr<Journal: JournalTr<State = EvmState>>>,
+    ERROR: EvmTrError<EVM>,
+{
+    let mode = if deferred_mode { BeneficiaryMode::Deferred } else { BeneficiaryMode::Immediate };
+    let cell = Cell::new(None);
+    mode.apply::<EVM, ERROR>(evm, exec_result, &cell)?;
+    Ok(cell.get().map(DeferredBeneficiaryReward::verif_amount))
+}
+
+/// `FinalizedAccount::from` as plain data: 0 unchanged, 1 deleted, 2 created, 3 updated.
+pub fn classify(account: &Account) -> (u8, Option<AccountInfo>) {
+    match FinalizedAccount::from(account) {
+        FinalizedAccount::Unchanged => (0, None),
+        FinalizedAccount::Deleted => (1, None),
+        FinalizedAccount::Created(info) => (2, Some(info.clone())),
+        FinalizedAccount::Updated(info) => (3, Some(info.clone())),
+    }
+}
